@@ -120,7 +120,7 @@ func run() {
 	sort.Strings(fileNames)
 	for _, fn := range fileNames {
 		if fn == "memio" {
-			continue // translated by the memio mode (see memio.go of this tool)
+			continue // translated by memiotr.go (slices and maps)
 		}
 		for _, d := range t.files[fn].Decls {
 			fd, ok := d.(*ast.FuncDecl)
@@ -363,19 +363,38 @@ func run() {
 	} else {
 		panic(refusal("CPU.Run not found"))
 	}
+	// data modules are generated independently of the CPU model: a refusal in one of them (source outside the fragment its extractor
+	// understands) leaves a stub without definitions, so that only the properties importing that module stop building
+	guarded := func(name string, f func() string) string {
+		txt := ""
+		func() {
+			defer func() {
+				if r := recover(); r != nil {
+					msg, ok := r.(refusal)
+					if !ok {
+						panic(r)
+					}
+					fmt.Fprintf(os.Stderr, "go2lean: %s refused: %s\n", name, string(msg))
+					txt = fmt.Sprintf("-- GENERATED by go2lean. DO NOT EDIT.\n-- the extractor REFUSED the current source, no definitions are available:\n--   %s\nnamespace Z80.Gen\ndef %s_refused : String := %q\nend Z80.Gen\n", strings.ReplaceAll(string(msg), "\n", " "), name, string(msg))
+				}
+			}()
+			txt = f()
+		}()
+		return txt
+	}
 	// zex tables and images (data only)
-	write("ZexData", genZexData(*repo))
+	write("ZexData", guarded("ZexData", func() string { return genZexData(*repo) }))
 	dataMods = append(dataMods, "ZexData")
 	// tinycpm BIOS pages (C18)
-	write("TinyCPM", genTinyCPM(*repo))
+	write("TinyCPM", guarded("TinyCPM", func() string { return genTinyCPM(*repo) }))
 	dataMods = append(dataMods, "TinyCPM")
 	// cim2bin / cim2cas output programs (C19)
-	write("CimData", genCimData(*repo))
+	write("CimData", guarded("CimData", func() string { return genCimData(*repo) }))
 	dataMods = append(dataMods, "CimData")
-	// memio.go source pin (C15)
-	write("MemioSource", genMemioSource(*repo))
-	dataMods = append(dataMods, "MemioSource")
-	write("TinyCPMSource", genSourcePin(*repo, "internal/tinycpm/tinycpm.go", "tinycpmSource"))
+	// memio.go translated (C15)
+	write("MemIO", guarded("MemIO", func() string { return t.genMemIO() }))
+	dataMods = append(dataMods, "MemIO")
+	write("TinyCPMSource", guarded("TinyCPMSource", func() string { return genSourcePin(*repo, "internal/tinycpm/tinycpm.go", "tinycpmSource") }))
 	dataMods = append(dataMods, "TinyCPMSource")
 	// structural facts (C10)
 	write("Facts", t.genFacts())
